@@ -316,7 +316,7 @@ def units():
 LEVEL = "proof"
 BOUNDED = {"quick": {"timeout_s": 90}, "thorough": {"timeout_s": 900}}
 TRUSTED_BASE = [
-    "finder postcondition (ASSUMED, bounded monitor only): _ConstantFindingMapper marks a subexpression constant only if it mentions no free variable (relies on pymbolic CombineMapper calling combine once per non-leaf node; known to break for LogicalNot: finding D41)",
+    "finder postcondition (ASSUMED, bounded monitor only): _ConstantFindingMapper marks a subexpression constant only if it mentions no free variable (relies on pymbolic CombineMapper calling combine once per non-leaf node; checked by the bounded monitor only)",
     "A-ID: IdentityMapper.rec dispatches to map_*; inherited map_* rebuild the node from recursively mapped children, so they preserve the denotation when the children do",
     "Sum / Product denote the commutative-associative combination of their operands (uninterpreted AC operator: nothing else about + or * is used)",
     "precondition of collapse_constants: new_var_func returns a variable that is used nowhere else, distinct each call",
